@@ -1,0 +1,224 @@
+//go:build verif
+
+package face
+
+import (
+	"github.com/named-data/ndnd/fw/dispatch"
+	enc "github.com/named-data/ndnd/std/encoding"
+	spec "github.com/named-data/ndnd/std/ndn/spec_2022"
+)
+
+// Contracts for the gcv verifier (/verif); compiled only with build tag `verif`.
+// C10, sending side: (*NDNLPLinkService).computeHeaderOverhead and sendPacket.
+
+// ---------------------------------------------------------------------------------------
+// Ghost state: the trace of frames handed to the transport is abstracted by a counter; what each frame carries
+// is stated on the LpPacket value that is encoded into it (assert before Encode / sendFrame in sendPacket).
+// ---------------------------------------------------------------------------------------
+
+var verifSent int // ghost: number of frames handed to transport.sendFrame so far
+
+// ---------------------------------------------------------------------------------------
+// NDNLPv2 wire layout (https://redmine.named-data.net/projects/nfd/wiki/NDNLPv2), TLV-TYPE numbers as in
+// std/ndn/spec_2022/definitions.go. Written from the format, not from the generated encoder.
+// ---------------------------------------------------------------------------------------
+
+// size of a TLV-TYPE / TLV-LENGTH number
+func specVarLen(x uint64) int { return spec.SpecVarLen(x) }
+
+// size of a NonNegativeInteger
+func specNNILen(x uint64) int { return spec.SpecNNILen(x) }
+
+// specWireSum: total number of bytes of the first k segments of a wire.
+func specWireSum(w enc.Wire, k int) int { return spec.SpecWireSum(w, k) }
+
+// specWireLen: total number of bytes of a wire (closed forms for the sizes that occur on the send path).
+func specWireLen(w enc.Wire) int { return spec.SpecWireLen(w) }
+
+// specLpHeaderLen: size of all header fields of an LpPacket (everything but the Fragment element). Header fields with
+// a nested structure (Nack, CachePolicy) and PrefixAnnouncement do not occur on the send path and are excluded by the
+// antecedent of the encoder contract below.
+func specLpHeaderLen(p *spec.LpPacket) int { return spec.SpecLpHeaderLen(p) }
+
+// specOpt: size contribution n of an optional element that is present iff c.
+func specOpt(c bool, n int) int { return spec.SpecOpt(c, n) }
+
+// specOptNNI: size of an optional NonNegativeInteger element whose TL takes tl bytes.
+func specOptNNI(v *uint64, tl int) int { return spec.SpecOptNNI(v, tl) }
+
+// specLpValueLen: TLV-LENGTH of the LpPacket element.
+func specLpValueLen(p *spec.LpPacket) int { return spec.SpecLpValueLen(p) }
+
+// specLpFrameLen: size of the whole frame: LpPacket TLV (type 0x64).
+func specLpFrameLen(p *spec.LpPacket) int { return spec.SpecLpFrameLen(p) }
+
+// specSimpleLp: the LpPacket has none of the fields whose size is not described by specLpHeaderLen.
+func specSimpleLp(p *spec.LpPacket) bool { return spec.SpecSimpleLp(p) }
+
+// The generated encoder (std/ndn/spec_2022/zz_generated.go) is assumed to implement the NDNLPv2 layout (property C13
+// is about the encoders; here only its length function is needed): Init computes the length of the encoding, Encode
+// returns a non-nil wire of exactly that many bytes (A-MEM: partial sums of segment sizes do not wrap).
+//
+// (*spec.PacketEncoder).Init / Encode: trusted contracts in std/ndn/spec_2022/zz_verif_make.go (frame length = spec.SpecLpFrameLen)
+
+// ---------------------------------------------------------------------------------------
+// transport: every frame handed to sendFrame fits the MTU
+// ---------------------------------------------------------------------------------------
+
+//@ func (transport).MTU
+//@   pure
+
+//@ func (transport).sendFrame
+//@   requires len(arg0) <= self.MTU()
+//@   modifies verifSent
+//@   ensures verifSent == old(verifSent)+1
+
+// ---------------------------------------------------------------------------------------
+// computeHeaderOverhead
+// ---------------------------------------------------------------------------------------
+
+// specHeaderOverhead: bytes of a frame that are not payload, for the fields that depend only on the options:
+// LpPacket TL (1+3), the Fragment element's own TL (1+3), with fragmentation Sequence (1+1+8), FragIndex and FragCount
+// (1+1+2 each), with incoming face indication IncomingFaceId (3+1+8).
+func specHeaderOverhead(o NDNLPLinkServiceOptions) int {
+	return 1 + 3 + 1 + 3 + specOpt(o.IsFragmentationEnabled, 1+1+8+1+1+2+1+1+2) + specOpt(o.IsIncomingFaceIndicationEnabled, 3+1+8)
+}
+
+//@ func (*NDNLPLinkService).computeHeaderOverhead
+//@   modifies l.headerOverhead
+//@   ensures l.headerOverhead == specHeaderOverhead(l.options)
+
+// ---------------------------------------------------------------------------------------
+// sendPacket
+// ---------------------------------------------------------------------------------------
+
+// specEffMtu: payload bytes per frame: MTU minus header overhead, minus the PIT token element the frames carry
+// (out.PitToken) and the congestion mark element (from upstream, or possibly added locally when marking is enabled).
+func specEffMtu(mtu int, o NDNLPLinkServiceOptions, out dispatch.OutPkt, marking bool) int {
+	return mtu - specHeaderOverhead(o) - specOpt(len(out.PitToken) > 0, 1+1+len(out.PitToken)) -
+		specOpt(out.Pkt.CongestionMark != nil || marking, 3+1+8)
+}
+
+func specCeilDiv(a, b int) int { return (a + b - 1) / b }
+
+// Arithmetic facts about the fragment count (nonlinear; proved once here, instantiated where sendPacket needs them;
+// lemmaCeil is additionally validated exhaustively over its whole range by TestC10_LemmaCeilExhaustive).
+//
+//@ func lemmaCeil
+//@   requires 1 <= e && e <= 8800 && e < n && n <= 8800
+//@   ensures 2 <= (n+e-1)/e && (n+e-1)/e <= 8800 && ((n+e-1)/e-1)*e < n && n <= ((n+e-1)/e)*e
+func lemmaCeil(n, e int) {}
+
+//@ func lemmaMulStep
+//@   requires 0 <= a && a <= 8800 && 0 <= e && e <= 8800
+//@   ensures (a+1)*e == a*e+e && 0 <= a*e && a*e <= 8800*8800
+func lemmaMulStep(a, e int) {}
+
+//@ func lemmaMulMono
+//@   requires 0 <= a && a <= b && b <= 8800 && 0 <= e && e <= 8800
+//@   ensures 0 <= a*e && a*e <= b*e && b*e <= 8800*e
+//@   decreases b
+func lemmaMulMono(a, b, e int) {
+	if a < b {
+		lemmaMulMono(a, b-1, e)
+	} else if a > 0 {
+		lemmaMulMono(a-1, b-1, e)
+	}
+}
+
+func specMin(a, b int) int {
+	if a < b {
+		return a
+	}
+	return b
+}
+
+func sameSlice(a, b []byte) bool { return len(a) == len(b) && (len(a) == 0 || &a[0] == &b[0]) }
+
+// specBare: an LpPacket as sendPacket creates it: nothing but (possibly) the Fragment.
+func specBare(p *spec.LpPacket) bool {
+	return p.Sequence == nil && p.FragIndex == nil && p.FragCount == nil && specUnsent(p) && specNoOther(p)
+}
+
+// specUnsent: the fields the send loop fills in are still empty.
+func specUnsent(p *spec.LpPacket) bool {
+	return p.PitToken == nil && p.IncomingFaceId == nil && p.CongestionMark == nil
+}
+
+// specNoOther: fields sendPacket never sets.
+func specNoOther(p *spec.LpPacket) bool {
+	return p.Nack == nil && p.NextHopFaceId == nil && p.CachePolicy == nil && p.Ack == nil && p.TxSequence == nil && !p.NonDiscovery && p.PrefixAnnouncement == nil
+}
+
+// Payload of the frames, stated without copying and without multiplication: the Fragment of every frame is ONE segment
+// that is a sub-slice of the packet (same backing array), the first starts where the packet starts, each next one starts
+// where the previous one ends, the last ends where the packet ends (loop invariants "chain" below and the asserts
+// first/next/last before sendFrame): so the concatenation of the payloads in frame order is exactly the packet. Every
+// payload has 1..eff bytes, all but the last exactly eff.
+
+// Property C10 (sender). eff = specEffMtu(...). Per frame (assert before transport.sendFrame): fits the MTU
+// (precondition of sendFrame), carries the PIT token and the congestion mark, payload = the j-th slice of the packet
+// (so the concatenation of the payloads is the packet), and if there is more than one frame Sequence = s+j,
+// FragIndex = j, FragCount = n. Count: one frame if the packet fits, none if it does not and fragmentation is off,
+// otherwise n = ceil(len/eff).
+//
+//@ func sendPacket
+//@   requires l != nil && l.transport != nil && out.Pkt != nil && out.Pkt.L3 != nil
+//@   requires 128 <= l.transport.MTU() && l.transport.MTU() <= 8800
+//@   requires 1 <= len(out.Pkt.Raw) && len(out.Pkt.Raw) <= 8800
+//@   requires len(out.PitToken) <= 32
+//@   requires l.headerOverhead == specHeaderOverhead(l.options)
+//@   modifies l.nOutInterests, l.nOutData, l.nextSequence, l.lastTimeCongestionMarked, l.congestionCheck, l.outFrame, l.outFrame[*], verifSent
+//@   ensures [one] len(out.Pkt.Raw) <= specEffMtu(l.transport.MTU(), l.options, out, congestionMarking) ==> verifSent == old(verifSent)+1 && l.nextSequence == old(l.nextSequence)
+//@   ensures [drop] len(out.Pkt.Raw) > specEffMtu(l.transport.MTU(), l.options, out, congestionMarking) && !l.options.IsFragmentationEnabled ==> verifSent == old(verifSent)
+//@   ensures [count] len(out.Pkt.Raw) > specEffMtu(l.transport.MTU(), l.options, out, congestionMarking) && l.options.IsFragmentationEnabled ==> verifSent == old(verifSent)+specCeilDiv(len(out.Pkt.Raw), specEffMtu(l.transport.MTU(), l.options, out, congestionMarking))
+//@   ensures [seq] len(out.Pkt.Raw) > specEffMtu(l.transport.MTU(), l.options, out, congestionMarking) && l.options.IsFragmentationEnabled ==> l.nextSequence == old(l.nextSequence)+uint64(specCeilDiv(len(out.Pkt.Raw), specEffMtu(l.transport.MTU(), l.options, out, congestionMarking)))
+//@   assert before NewBufferReader@1 uses lemmaCeil(len(wire), effectiveMtu) nFragments >= 2 && nFragments <= 8800 && (nFragments-1)*effectiveMtu < len(wire) && len(wire) <= nFragments*effectiveMtu
+//@   assert before ReadWire@1 uses lemmaMulStep(i, effectiveMtu) [step] (i+1)*effectiveMtu == i*effectiveMtu+effectiveMtu
+//@   assert before ReadWire@1 uses lemmaMulStep(nFragments-1, effectiveMtu) [stepn] nFragments*effectiveMtu == (nFragments-1)*effectiveMtu+effectiveMtu
+//@   assert before ReadWire@1 uses lemmaMulMono(i, nFragments-1, effectiveMtu) [lo] i <= nFragments-1 ==> 0 <= i*effectiveMtu && i*effectiveMtu <= (nFragments-1)*effectiveMtu
+//@   assert before ReadWire@1 uses lemmaMulMono(i+1, nFragments-1, effectiveMtu) [hi] i < nFragments-1 ==> (i+1)*effectiveMtu <= (nFragments-1)*effectiveMtu
+//@   loop 1 invariant 0 <= i && i <= nFragments && len(fragments) == nFragments && fresh(fragments) && nFragments >= 2 && nFragments <= 8800
+//@   loop 1 invariant effectiveMtu == specEffMtu(l.transport.MTU(), l.options, out, congestionMarking) && 1 <= effectiveMtu && effectiveMtu <= 8800
+//@   loop 1 invariant nFragments == specCeilDiv(len(wire), effectiveMtu) && (nFragments-1)*effectiveMtu < len(wire) && len(wire) <= nFragments*effectiveMtu
+//@   loop 1 invariant enc.wfBR(reader) && fresh(reader) && sameSlice(reader.buf, wire) && reader.pos == specMin(i*effectiveMtu, len(wire))
+//@   loop 1 invariant forallIn(0, i, func(j int) bool { return fragments[j] != nil && fresh(fragments[j]) && allocated(fragments[j]) && specBare(fragments[j]) })
+//@   loop 1 invariant forallIn(0, i, func(j int) bool { return len(fragments[j].Fragment) == 1 && sliceArr(fragments[j].Fragment[0]) == sliceArr(wire) && 1 <= len(fragments[j].Fragment[0]) && len(fragments[j].Fragment[0]) <= effectiveMtu && (j < nFragments-1 ==> len(fragments[j].Fragment[0]) == effectiveMtu) })
+//@   loop 1 invariant i > 0 ==> sliceOff(fragments[0].Fragment[0]) == sliceOff(wire) && sliceOff(fragments[i-1].Fragment[0])+len(fragments[i-1].Fragment[0]) == sliceOff(wire)+reader.pos
+//@   loop 1 invariant forallIn(1, i, func(j int) bool { return sliceOff(fragments[j].Fragment[0]) == sliceOff(fragments[j-1].Fragment[0])+len(fragments[j-1].Fragment[0]) })
+//@   loop 1 invariant forallIn(0, i, func(a int) bool { return forallIn(0, i, func(b int) bool { return a != b ==> fragments[a] != fragments[b] }) })
+//@   loop 2 invariant len(fragments) >= 2 && len(fragments) <= 8800 && fresh(fragments) && l.nextSequence == old(l.nextSequence)+uint64(rangeindex+1)
+//@   loop 2 invariant forallIn(0, len(fragments), func(j int) bool { return fragments[j] != nil && fresh(fragments[j]) && specUnsent(fragments[j]) && specNoOther(fragments[j]) })
+//@   loop 2 invariant forallIn(0, len(fragments), func(j int) bool { return len(fragments[j].Fragment) == 1 && sliceArr(fragments[j].Fragment[0]) == sliceArr(wire) && 1 <= len(fragments[j].Fragment[0]) && len(fragments[j].Fragment[0]) <= effectiveMtu && (j < len(fragments)-1 ==> len(fragments[j].Fragment[0]) == effectiveMtu) })
+//@   loop 2 invariant sliceOff(fragments[0].Fragment[0]) == sliceOff(wire) && sliceOff(fragments[len(fragments)-1].Fragment[0])+len(fragments[len(fragments)-1].Fragment[0]) == sliceOff(wire)+len(wire)
+//@   loop 2 invariant forallIn(1, len(fragments), func(j int) bool { return sliceOff(fragments[j].Fragment[0]) == sliceOff(fragments[j-1].Fragment[0])+len(fragments[j-1].Fragment[0]) })
+//@   loop 2 invariant forallIn(0, len(fragments), func(a int) bool { return forallIn(0, len(fragments), func(b int) bool { return a != b ==> fragments[a] != fragments[b] }) })
+//@   loop 2 invariant forallIn(0, rangeindex+1, func(j int) bool { return fragments[j].Sequence != nil && allocated(fragments[j].Sequence) && *fragments[j].Sequence == old(l.nextSequence)+uint64(j) })
+//@   loop 2 invariant forallIn(0, rangeindex+1, func(j int) bool { return fragments[j].FragIndex != nil && allocated(fragments[j].FragIndex) && *fragments[j].FragIndex == uint64(j) })
+//@   loop 2 invariant forallIn(0, rangeindex+1, func(j int) bool { return fragments[j].FragCount != nil && allocated(fragments[j].FragCount) && *fragments[j].FragCount == uint64(len(fragments)) })
+//@   loop 3 invariant len(fragments) >= 1 && len(fragments) <= 8800 && fresh(fragments) && verifSent == old(verifSent)+rangeindex+1
+//@   loop 3 invariant effectiveMtu == specEffMtu(l.transport.MTU(), l.options, out, congestionMarking) && 1 <= effectiveMtu && effectiveMtu <= 8800
+//@   loop 3 invariant len(fragments) == 1 ==> len(wire) <= effectiveMtu && l.nextSequence == old(l.nextSequence)
+//@   loop 3 invariant len(fragments) > 1 ==> l.options.IsFragmentationEnabled && len(fragments) == specCeilDiv(len(wire), effectiveMtu) && len(wire) > effectiveMtu && l.nextSequence == old(l.nextSequence)+uint64(len(fragments))
+//@   loop 3 invariant congestionMark != nil ==> out.Pkt.CongestionMark != nil || congestionMarking
+//@   loop 3 invariant out.Pkt.CongestionMark != nil ==> congestionMark != nil
+//@   loop 3 invariant forallIn(0, len(fragments), func(j int) bool { return fragments[j] != nil && fresh(fragments[j]) && specNoOther(fragments[j]) })
+//@   loop 3 invariant forallIn(0, len(fragments), func(j int) bool { return len(fragments[j].Fragment) == 1 && sliceArr(fragments[j].Fragment[0]) == sliceArr(wire) && 1 <= len(fragments[j].Fragment[0]) && len(fragments[j].Fragment[0]) <= effectiveMtu && (j < len(fragments)-1 ==> len(fragments[j].Fragment[0]) == effectiveMtu) })
+//@   loop 3 invariant sliceOff(fragments[0].Fragment[0]) == sliceOff(wire) && sliceOff(fragments[len(fragments)-1].Fragment[0])+len(fragments[len(fragments)-1].Fragment[0]) == sliceOff(wire)+len(wire)
+//@   loop 3 invariant forallIn(1, len(fragments), func(j int) bool { return sliceOff(fragments[j].Fragment[0]) == sliceOff(fragments[j-1].Fragment[0])+len(fragments[j-1].Fragment[0]) })
+//@   loop 3 invariant forallIn(rangeindex+1, len(fragments), func(j int) bool { return specUnsent(fragments[j]) })
+//@   loop 3 invariant len(fragments) == 1 ==> fragments[0].Sequence == nil && fragments[0].FragIndex == nil && fragments[0].FragCount == nil
+//@   loop 3 invariant len(fragments) > 1 ==> forallIn(0, len(fragments), func(j int) bool { return fragments[j].Sequence != nil && allocated(fragments[j].Sequence) && *fragments[j].Sequence == old(l.nextSequence)+uint64(j) })
+//@   loop 3 invariant len(fragments) > 1 ==> forallIn(0, len(fragments), func(j int) bool { return fragments[j].FragIndex != nil && allocated(fragments[j].FragIndex) && *fragments[j].FragIndex == uint64(j) })
+//@   loop 3 invariant len(fragments) > 1 ==> forallIn(0, len(fragments), func(j int) bool { return fragments[j].FragCount != nil && allocated(fragments[j].FragCount) && *fragments[j].FragCount == uint64(len(fragments)) })
+//@   loop 4 invariant len(l.outFrame) == specWireSum(frameWire, rangeindex+1)
+//@   assert before transport.sendFrame@1 [token] len(out.PitToken) > 0 ==> sameSlice(fragment.PitToken, out.PitToken)
+//@   assert before transport.sendFrame@1 [mark] fragment.CongestionMark == congestionMark
+//@   assert before transport.sendFrame@1 [payload] len(fragment.Fragment) == 1 && sliceArr(fragment.Fragment[0]) == sliceArr(out.Pkt.Raw) && len(fragment.Fragment[0]) <= effectiveMtu
+//@   assert before transport.sendFrame@1 [first] rangeindex3+1 == 0 ==> sliceOff(fragment.Fragment[0]) == sliceOff(out.Pkt.Raw)
+//@   assert before transport.sendFrame@1 [next] rangeindex3+1 > 0 ==> sliceOff(fragment.Fragment[0]) == sliceOff(fragments[rangeindex3].Fragment[0])+len(fragments[rangeindex3].Fragment[0])
+//@   assert before transport.sendFrame@1 [last] rangeindex3+2 == len(fragments) ==> sliceOff(fragment.Fragment[0])+len(fragment.Fragment[0]) == sliceOff(out.Pkt.Raw)+len(out.Pkt.Raw)
+//@   assert before transport.sendFrame@1 [fragfields] len(fragments) > 1 ==> fragment.Sequence != nil && *fragment.Sequence == old(l.nextSequence)+uint64(rangeindex3+1) && fragment.FragIndex != nil && *fragment.FragIndex == uint64(rangeindex3+1) && fragment.FragCount != nil && *fragment.FragCount == uint64(len(fragments))
+//@   assert before transport.sendFrame@1 [hdr] specLpHeaderLen(fragment) <= l.transport.MTU()-effectiveMtu-8
+//@   assert before transport.sendFrame@1 [fit] specLpFrameLen(fragment) <= l.transport.MTU()
+//@   assert before transport.sendFrame@1 [len] len(l.outFrame) == specLpFrameLen(fragment)
